@@ -126,9 +126,9 @@ def generate(rng, tier):
             sysrows = []
             # the full cross product of the small special values (the shortcuts of the translation are conjunctions
             # of exactly such values: every combination occurs, not only the standard ones)
-            small = [("u",), ("s",), ("o", -8), ("o", -16), ("o", -24), ("o", -12)]
+            small = [("u",), ("s",), ("o", -8), ("o", -16), ("o", -24), ("o", -12), ("o", -20), ("o", -4)]
             for reg in (R["sp"], R["fp"]):
-                for off in (0, 8, 16, 24, 32):
+                for off in (0, 8, 16, 24, 32, 12, 20):
                     for fpr in small:
                         for rar in small:
                             sysrows.append(dict(cfa=("r", reg, off), fp=fpr, ra=rar))
